@@ -245,6 +245,20 @@ def run(pid, tier, seed):
                     o = ["--blocksz", str(B_)] + (["-a", gen.fmt_ts(a_, 0, None, 0)] if a_ else [])
                     cases.append(("text:" + label, Case({name: blob}, ["--color", "never"] + o + [name]),
                                   Case(files, ["--color", "never"] + o + [arg])))
+        # ... and short lines, several to a block, every fourth newline on the first byte of a block
+        for B_ in (256, 1024):
+            ls_ = []
+            for q in range(1, 260):
+                head = gen.fmt_ts(gen.BASE + q, 0, None, 0).encode() + b" sh=%d " % q
+                ls_.append(head + b"s" * ((65 if q == 1 else 64) - len(head) - 1) + b"\n")
+            blob = b"".join(ls_)
+            assert blob[B_:B_ + 1] == b"\n"
+            name = "sh%d.log" % B_
+            for label, files, arg in containers(rng, name, blob, tier):
+                for a_ in (None, gen.BASE + 9, gen.BASE + 130, gen.BASE + 250):
+                    o = ["--blocksz", str(B_)] + (["-a", gen.fmt_ts(a_, 0, None, 0)] if a_ else [])
+                    cases.append(("text:" + label, Case({name: blob}, ["--color", "never"] + o + [name]),
+                                  Case(files, ["--color", "never"] + o + [arg])))
         # accounting records: small and many-block
         for ri, nrec in enumerate([1, 3, 40] + ([400] if tier == "quick" else [400, 1500])):
             blob = b"".join(c08.rec_bytes(i + 1, 1 + (i * 7) % 97, usec=i % 5) for i in range(nrec))
